@@ -10,12 +10,18 @@ use std::sync::Mutex;
 use std::time::{Duration, UNIX_EPOCH};
 
 thread_local! {
-    static VIRTUAL_NOW_MS: Cell<Option<u64>> = const { Cell::new(None) };
+    static VIRTUAL_NOW_US: Cell<Option<u64>> = const { Cell::new(None) };
 }
 
 /// Pin (Some) or release (None) the current thread's clock, in milliseconds since the epoch.
 pub fn set_virtual_now_ms(ms: Option<u64>) {
-    VIRTUAL_NOW_MS.with(|c| c.set(ms));
+    VIRTUAL_NOW_US.with(|c| c.set(ms.map(|m| m.saturating_mul(1000))));
+}
+
+/// Pin (Some) or release (None) the current thread's clock, in microseconds since the epoch
+/// (instants inside a millisecond: truncation versus rounding of timestamps).
+pub fn set_virtual_now_us(us: Option<u64>) {
+    VIRTUAL_NOW_US.with(|c| c.set(us));
 }
 
 /// Drop-in for `std::time::SystemTime` inside the instrumented functions.
@@ -24,8 +30,8 @@ pub struct SystemTime;
 impl SystemTime {
     /// The pinned instant of this thread, or the real time when none is pinned.
     pub fn now() -> std::time::SystemTime {
-        match VIRTUAL_NOW_MS.with(|c| c.get()) {
-            Some(ms) => UNIX_EPOCH + Duration::from_millis(ms),
+        match VIRTUAL_NOW_US.with(|c| c.get()) {
+            Some(us) => UNIX_EPOCH + Duration::from_micros(us),
             None => std::time::SystemTime::now(),
         }
     }
